@@ -56,15 +56,17 @@ class Universe:
 
     def _tree(self, j):
         items = []
+        # entry names carry the number of the containing tree, so two abstract trees never
+        # collapse into one git object even when they list the same children
         for o in self.ent[j - 1]:
             if o[0] == "b":
-                items.append((b"f%d" % o[1], b"100644", self.get(o)))
+                items.append((b"t%d-f%d" % (j, o[1]), b"100644", self.get(o)))
             elif o[0] == "t":
-                items.append((b"d%d" % o[1], b"40000", self.get(o)))
+                items.append((b"t%d-d%d" % (j, o[1]), b"40000", self.get(o)))
             else:
                 raise ValueError(o)
         if self.lnk[j - 1]:
-            items.append((b"sub", b"160000", GITLINK_SHA))
+            items.append((b"t%d-sub" % j, b"160000", GITLINK_SHA))
         # git order: directories compare as name + "/"
         items.sort(key=lambda it: it[0] + (b"/" if it[1] == b"40000" else b""))
         return b"".join(mode + b" " + name + b"\0" + bytes.fromhex(sha) for name, mode, sha in items)
@@ -96,6 +98,8 @@ class Universe:
         body = {"b": self._blob, "t": self._tree, "c": self._commit, "g": self._tag}[k](n)
         typ = KIND_TYPE[k]
         s = obj_id(typ, body)
+        if s in self.name and self.name[s] != o:
+            raise ValueError(f"abstract objects {o} and {self.name[s]} are the same git object")
         self.raw[o] = (typ, body)
         self.sha[o] = s
         self.name[s] = o
@@ -424,8 +428,6 @@ def parse_pack(data: bytes, resolve=None):
         for e in pending:
             kind, ref = e[3]
             b = by_off.get(ref) if kind == "ofs" else by_sha.get(ref)
-            if b is None and kind == "ref" and not any(True for x in pending if False):
-                pass
             if b is None:
                 rest.append(e)
                 continue
